@@ -50,5 +50,13 @@ CLAIMS = {
           'unary x binary slots, unary x postfix forms (incl. `<-chan T(c)`), redundant and needed parentheses are decided by correspondence + specTree oracle.',
   'note': 'The step from the kernel to the model\'s binaryExpressionBody (token-level, with the scanner underneath) is by correspondence, not yet by theorem.',
  },
+ 'C16': {
+  'category': 'proof',
+  'technique': 'Lean 4 proof of the offset-to-(line,column) lookup (binary search invariant, no underflow for any table) + differential correspondence on rejected inputs + location oracle',
+  'text': 'binarySearch_sorted, lineInfo_sorted, lineInfo_total, lineInfo_profile: for every sorted line table and offset the column is the true column, the line is the true line minus one from line 2 on (known finding K2, pinned by a unit test; stated as theorem and counterexample), '
+          'and the lookup never panics or wraps for any table. The rest of the property (crate error type, path, location of the unexpected token, Display returns) is decided on rejected inputs (mutated corpus programs, soup, unterminated tokens at every line, multi-line tokens and backtracking before the error, nesting 62-200) '
+          'by model/implementation correspondence on (variant, line, col, token) and an oracle that looks the token text up at the reported place; partial proof.',
+  'note': 'The invariant that the scanner keeps the table sorted and equal to the offsets after each scanned newline is not yet a theorem (correspondence compares the final table on every scan case).',
+ },
 }
 NOT_CLAIMED = {}
